@@ -82,7 +82,7 @@ Fixpoint gen_sched (g : geom) (nthreads : N) (orders : list nat) (n : nat) (x : 
   match n with
   | O => []
   | S n' => let t := nn ((x / 8) mod nthreads) in
-            let c := gen_call g orders s x in
+            let c := gen_call orders s x in
             (t, c) :: gen_sched g nthreads orders n' (lcg x) (fst (mstep g s t c))
   end.
 Definition ords := [0;1;2;3;5;6;7;8;9]%nat.
